@@ -1032,6 +1032,10 @@ func (c *Client) DialToSMTPClientWithContext(ctxDial context.Context) (*smtp.Cli
 	if err != nil {
 		return nil, err
 	}
+	if err = connection.SetDeadline(time.Now().Add(c.connTimeout)); err != nil {
+		_ = connection.Close()
+		return nil, fmt.Errorf("failed to set connection deadline: %w", err)
+	}
 
 	client, err := smtp.NewClient(connection, c.host)
 	if err != nil {
